@@ -10,6 +10,27 @@ CLAIMED = {
  "C01": ("model_checking", "4/C01", E1 + "; oracle = ground-truth justification of every session-user change",
          "All reachable states of the composed application (six module sets, 2-3 accounts x 2 browsers, full credential alphabets incl. other accounts' / stale / stored-hash / empty / oversized secrets) are enumerated up to the stated depth; on every transition a changed session user must be justified by a credential the oracle itself knows to be valid.",
          "harness world (database-like storer, client-state stores, virtual clock, deterministic crypto/rand), bounded depth/participants/alphabets"),
+ "C02": ("model_checking", "4/C02", E1 + "; (1) adversary-only action menu with the invariant 'no browser holds uid=victim' on every reachable state, (2) full-knowledge menu with per-transition rules",
+         "Reachability analysis under an explicit adversary model (knows the victim's password, owns other accounts with their own factors and phone, controls two browsers, can wait across the SMS resend limit and a TOTP step): every reachable state is checked for a victim session; plus a per-transition monitor with the victim's real codes in the alphabet.",
+         "adversary model as listed in the evidence assumptions; bounded depth, 3 accounts, 2 browsers"),
+ "C03": ("model_checking", "4/C03", E1 + "; lockedness decided by the C04 reference automaton advanced on the same history, not by what storage says",
+         "Every login path (password, OTP, OAuth2 callback, recover-and-login, TOTP/SMS second step) is enumerated against lock / confirm state changes (failures, administrator lock/unlock, re-started confirmation, lock expiry) in both handler orders; a newly issued session requires the account to be unlocked and confirmed in the pre-state, and the handler behind lock/confirm middleware only ever runs for such users.",
+         "lock.Middleware / confirm.Middleware placed behind authboss.Middleware2 (README); bounded depth"),
+ "C04": ("model_checking", "4/C04", E1 + " with a reference automaton (count, last attempt, locked-until) compared with storage and a probe login after every step; fixpoint on small-duration configurations",
+         "The lock module's stored state is compared, after every step of every history over {correct/wrong password, OTP, TOTP code, manual lock/unlock, clock advances on either side of LockWindow/LockDuration}, with an independent automaton written from the statement, across a grid of LockAfter x window x duration; small configurations run to a fixpoint so histories of any length are covered.",
+         "expiry at exactly LockDuration not asserted; at most LockAfter+2 counted failures in a row"),
+ "C05": ("model_checking", "4/C05", E1 + " x complete near-miss battery (all single-bit flips, length changes, splices, storage-built values, dead tokens, alternative base64 spellings) on clones of every distinct reached state",
+         "Issue / re-issue / use / expiry histories of confirm and recover tokens are enumerated with a reference model of acceptance; from every distinct reached state with an outstanding token the whole near-miss value set is submitted on clones, each followed by the genuine token.",
+         "quick tier flips every third bit; bounded depth, 3 accounts"),
+ "C06": ("model_checking", "4/C06", E1 + " x probe battery (real logins with old/new password, real requests with pre-change cookies, stored-field inspection, token replay) on clones of every distinct state after a completed change",
+         "All histories of cookie issuance on several browsers followed by a password change through recovery or UpdatePassword, over a set of old/new password classes (equal, last byte, case, non-ASCII, 72/73 bytes, one char), with the remember module loaded or not and login-after-recovery on or off; revocation is decided by the oracle's own record of completed changes and verified by real requests.",
+         "bcrypt's 72-byte limit; bounded depth, 2 accounts, 3 browsers"),
+ "C07": ("model_checking", "4/C07", E1 + " per PID class (incl. ';' forms and the PID built by a real OAuth2 login) with crafted-cookie and single-fault transitions; oracle = own record of live tokens",
+         "Issue / use / replay / theft / logout / password-update histories of remember cookies are enumerated for every PID class and a cookie alphabet (genuine, other account's, used, revoked, malformed, bit-flipped); the cookie-bearing request itself is sent to a RequireFullAuth route; storage faults are injected at the two token-table calls.",
+         "remember.Middleware wraps the whole application; bounded depth, 2 accounts, 2 browsers"),
+ "C12": ("model_checking", "4/C12", E1 + "; acceptance must come from the oracle's own unconsumed set and the accepted value's hash must be gone from the copy-semantics database after the response",
+         "Generate / use / replay / clear / regenerate histories of one-time passwords, 2FA recovery codes, TOTP codes (with and without replay protection) and SMS codes are enumerated with foreign, stale, stored-hash and empty candidates.",
+         "storage has database semantics; bounded depth, 2 accounts, 2 browsers"),
 }
 NA = {}
 
